@@ -184,6 +184,19 @@ class CB:
         # expectation switch
         self.exp_switch = [sw for sw in b.switches if sw.kind == 'variant' and
                            sw.on.fields() and sw.on.fields()[-1] == '.expectation']
+        # the property loop is the first walk over the properties; a condition evaluated in another walk (inside
+        # the successor loop, say) is not part of it: it is kept apart and reported by `no_stray_evaluations`
+        self.stray_conds = []
+        heads_c = [c for c in self.prop_next if b.in_cycle(c.bb)]
+        first = [h for h in heads_c if all(b.dominates(h.bb, o.bb) for o in heads_c)]
+        if len(heads_c) > 1 and len(first) == 1:
+            some0 = b.branch(first[0], 'Some')
+            body0 = b.reach([e[1] for e in some0], cut_blocks=[first[0].bb]) if some0 else set()
+            inside = [c for c in self.cond_calls if c.bb in body0]
+            if inside and len(inside) < len(self.cond_calls) and not any(x in body0 for x in b.returns):
+                self.stray_conds = [c for c in self.cond_calls if c.bb not in body0]
+                self.cond_calls = inside
+                self.exp_switch = [sw for sw in self.exp_switch if sw.bb in body0] or self.exp_switch
         if len(self.exp_switch) < 1:
             raise AnchorMissing('%s: match on Property.expectation not found' % b.path)
         cands = [sw for sw in self.exp_switch
@@ -374,3 +387,17 @@ class Spawn:
                     if isinstance(e, dict) and 'f' in e and e.get('base', '').endswith('CheckerBuilder'):
                         out.add(e['name'])
         return out
+
+
+def no_stray_evaluations(ctx, cb, rule):
+    """property conditions are evaluated in the property loop only - on the job that was dequeued - and nowhere
+    else (a verdict taken on a successor when it is generated is not the verdict of the state that is recorded
+    with it, and it is taken out of the strategy's evaluation order)"""
+    b = cb.b
+    ctx.check(not cb.stray_conds, rule, 'conditions-evaluated-in-the-property-loop-only', b,
+              good='property conditions are evaluated only in the loop over the dequeued state\'s properties',
+              bad='%s: a property condition is also evaluated outside the property loop of the dequeued state (%s): '
+                  'a state is judged when it is generated, not when the strategy reaches it - discoveries are then '
+                  'recorded out of order (BFS: not a shortest witness; depth limit and visitor not applied to it)'
+                  % (cb.strat, sorted(c.span for c in cb.stray_conds)),
+              span=cb.stray_conds[0].span if cb.stray_conds else None)
